@@ -429,6 +429,17 @@ let hufcounts_line line =
   | M.RPanic _, _ | _, M.RPanic _ -> "panic"
   | _ -> "err"
 
+(* litchain <R|W|body-hex> ... : the blocks of one frame written at level Fastest, in order (R: RLE block, W: block stored
+   raw); per compressed block: does the model of the literals part write the literals section of the real block, and the
+   literals type *)
+let litchain_line line =
+  let items = List.map (fun x -> if x = "R" then M.BRle else if x = "W" then M.BRaw else M.BComp (unhex x))
+      (List.filter (fun x -> x <> "") (split_on ' ' line)) in
+  match M.lit_chain M.huf_new None items with
+  | M.ROk rs -> "ok " ^ String.concat " " (List.map (fun ((same, ty), hdr) -> (if same then "1" else "0") ^ z_to_string ty ^ (if same then "" else ":" ^ hex hdr)) rs)
+  | M.RErr _ -> "err"
+  | M.RPanic _ -> "panic"
+
 let () =
   let cmd = if Array.length Sys.argv > 1 then Sys.argv.(1) else "" in
   let f = match cmd with
@@ -449,6 +460,7 @@ let () =
     | "fsedesc" -> fsedesc_line
     | "hufweights" -> hufweights_line
     | "hufcounts" -> hufcounts_line
+    | "litchain" -> litchain_line
     | "bits64" -> bits_line 0
     | "bitsabs" -> bits_line 1
     | _ -> prerr_endline "usage: driver <prog|fse|huf> < cases"; exit 2 in
